@@ -161,3 +161,6 @@ PROPS = {
              assumptions=["the model stops at serde's data model: serde_derive's expansion and the RON text layer are modelled / exercised, not verified",
                           "field attributes are regenerated from src/ast.rs on every run (translate/serde_attrs.py)"]),
 }
+
+import parse_props  # noqa: E402
+PROPS.update(parse_props.PARSE_PROPS)
